@@ -324,8 +324,12 @@ class PluginGroup(Generic[T], metaclass=PluginGroupMeta):
         ep_name = util.to_ep_name(ref.name, ref.version)
         ret = self._ENTRY_POINTS[ep_name].load()
         self._LOADED_PLUGINS[ref] = ret
-
-        self._load_plugin(ep_name, ret)
+        try:
+            self._load_plugin(ep_name, ret)
+        except Exception:
+            # a plugin that did not pass its checks must not be handed out later
+            del self._LOADED_PLUGINS[ref]
+            raise
 
     def _explicit_plugin_deps(self, plugin) -> Set[AnyPluginRef]:
         """Return all plugin dependencies that must be taken into account."""
